@@ -56,8 +56,11 @@ ASSUMPTIONS = [
     'of the create call (parents are pre-created)',
     'stubs: sysinfo.hostname (fixed per host), context.GLOBAL.zk.conn (the host\'s client), '
     'utils.sys_exit; everything else on the path is the code of the working tree',
-    'EndpointPresence.unregister_* / kill_node and trace.app.zk._unschedule (hostname / placement '
-    'based guards of other programs) are not driven by this check',
+    'the other entry points of presence.py (EndpointPresence.unregister_running / _endpoints / _identity, '
+    'kill_node) are driven from an administrator session on extension traces: their set / delete of a '
+    'presence node that another session owns and whose data does not name the host they act for is '
+    'C17.noForeign, unless their own preceding get showed the host\'s data (the unversioned get/delete '
+    'window, reported as observation ext.kill.window); trace.app.zk._unschedule is not driven',
 ]
 
 
@@ -356,7 +359,7 @@ def judge(ctx, traces, verdicts, extra=None):
     drift_traces = set()
     drift_examples = []
     drifting = {v['tid'] for v in verdicts if any(f.startswith('drift.') for f in v['fail'])}
-    xt = dict(traces=0, lines=0, helper_calls=0, undisturbed_runs=0, unexplained=0,
+    xt = dict(traces=0, lines=0, helper_calls=0, helper_writes_judged=0, undisturbed_runs=0, unexplained=0,
               clauses=collections.Counter(), observations=collections.Counter(), examples=[])
     xt['traces'] = sum(1 for t in traces if t['src'].startswith('x'))
     for v in verdicts:
@@ -365,7 +368,10 @@ def judge(ctx, traces, verdicts, extra=None):
         if t['src'].startswith('x'):
             # extension beyond the listed property (DESIGN.md 10.6): conformance class only
             xt['lines'] += 1
-            xt['helper_calls'] += 1 if t['lines'][v['i']]['ev'] == 'acall' else 0
+            if t['lines'][v['i']]['ev'] == 'acall':
+                xt['helper_calls'] += 1
+                evaluations += 1                 # judged by C17.noForeign (write log of the store)
+            xt['helper_writes_judged'] += 1 if 'C17.helper' in v['ex'] else 0
             xt['undisturbed_runs'] += 1 if 'ext.atomic' in v['ex'] else 0
             for f in sorted(fails):
                 if f.startswith(PROP + '.'):
@@ -458,7 +464,7 @@ def judge(ctx, traces, verdicts, extra=None):
 # Extension beyond the listed property (DESIGN.md 5 / 10.6): the helpers of
 # treadmill/presence.py (kill_node, EndpointPresence.unregister_*) as actors of
 # Presence.tla.  Conformance class: never a VIOLATION.
-EXT_INV = ['Ephemeral', 'Waits', 'OwnOnly', 'ExtScope', 'ExtAtomic']
+EXT_INV = ['Ephemeral', 'Waits', 'OwnOnly', 'ExtScope', 'ExtAtomic', 'ExtGuarded']
 EXT_OBSERVATIONS = [
     ('safe_delete_window', 'NoForeign',
      'a node that _safe_delete has just read as its own is removed by the helper and re-created '
@@ -472,9 +478,8 @@ EXT_OBSERVATIONS = [
 def _ext_mc(ctx):
     """Exhaustive runs of the extension configuration (invariants that hold)."""
     out = []
-    # quick: kill_node on the two-path scenario (unregister_* is searched by the observation
-    # runs and exercised by the recorded traces); thorough: both helpers, also with an endpoint
-    plan = [('k2', ('kill',))] if ctx.quick else [('k2', ('kill', 'unreg')), ('a2', ('kill', 'unreg'))]
+    # quick: the two-path scenario; thorough: also with an endpoint
+    plan = [('k2', ('kill', 'unreg'))] if ctx.quick else [('k2', ('kill', 'unreg')), ('a2', ('kill', 'unreg'))]
     for name, kinds in plan:
         scn = pd.SCENARIOS[name]
         mod, cfg, files = mc_files(scn, 'ext', 0, ['olderSteals'], EXT_INV, helpers=kinds)
@@ -499,8 +504,29 @@ def _ext_obs(ctx):
         return list(zip(EXT_OBSERVATIONS, ex.map(one, EXT_OBSERVATIONS)))
 
 
+def _ext_designed():
+    """Every helper against every host / instance on the scenarios whose names share a
+    prefix: both hosts run one instance each, then ONE helper run (kill_node(h), or the
+    unregister_* of instance a for host h) to its end."""
+    items = []
+    for name in ('px', 'py'):
+        scn = pd.SCENARIOS[name]
+        h0, h1 = scn['hosts'][:2]
+        first = {}
+        for c in scn['conts']:
+            first.setdefault(scn['inst'][c], c)
+        (a, ca), (b, cb) = sorted(first.items())[:2]
+        for x, y in ((h0, h1), (h1, h0)):
+            base = [('Submit', [x, ca]), ('Run', [x]), ('Submit', [y, cb]), ('Run', [y])]
+            for h in (h0, h1):
+                items.append((name, 'xfix', base + [('KillBegin', [h]), ('ARun', [])]))
+                for inst in (a, b):
+                    items.append((name, 'xfix', base + [('UnregBegin', [h, inst]), ('ARun', [])]))
+    return items
+
+
 def _ext_schedules(ctx, obs):
-    items, info = [], {}
+    items, info = _ext_designed(), {}
     for (key, inv, what), res in obs:
         info[key] = dict(invariant=inv, what=what, model_counterexample_steps=len(res['cex']),
                          violated_in_model=bool(res['violated']), reproduced_on_code=False)
@@ -514,8 +540,8 @@ def _ext_schedules(ctx, obs):
                                    extra_files=files, timeout=120 if ctx.quick else 600)
     ctx.cmds.append(cmd)
     items += [('k2', 'xtlc', _sched(b)) for b in behaviours]
-    names = ['k2', 'a2', 'a2b1']
-    for k in range(90 if ctx.quick else 3000):
+    names = ['k2', 'a2', 'px', 'a2b1', 'py']
+    for k in range(100 if ctx.quick else 3000):
         items.append((names[k % len(names)], 'xrnd', ctx.seed * 1000003 + 500000 + k, 160))
     return items, info
 
